@@ -328,6 +328,11 @@ impl SDJWTVerifier {
                         .ok_or(Error::InvalidArrayDisclosureObject(
                             value_for_digest.to_string(),
                         ))?;
+                if disclosure.len() != 3 {
+                    return Err(Error::InvalidDisclosure(
+                        "Object member disclosure must be an array of three elements".to_string(),
+                    ));
+                }
                 let key = disclosure[1]
                     .as_str()
                     .ok_or(Error::ConversionError("str".to_string()))?
@@ -368,6 +373,11 @@ impl SDJWTVerifier {
                         value_for_digest.to_string(),
                     ))?;
 
+            if disclosure.len() != 2 {
+                return Err(Error::InvalidDisclosure(
+                    "Array element disclosure must be an array of two elements".to_string(),
+                ));
+            }
             let value = disclosure[1].clone();
             let unpacked_value = self.unpack_disclosed_claims(&value)?;
             return Ok(Some(unpacked_value));
